@@ -439,6 +439,101 @@ def _forward(f, v):
     return out
 
 
+def may_keep(prog, g, k, depth=0, memo=None):
+    """may g retain (store into the heap / hand to a worker queue) the object passed as parameter k?"""
+    memo = memo if memo is not None else {}
+    key = (g, k)
+    if key in memo:
+        return memo[key]
+    memo[key] = False
+    par = g.params[k]
+    res = False
+    for i in g.insts():
+        if i.op == "store" and strip_casts(i.ops[0]) is par:
+            b = resolve_ptr(prog, i.ops[1], g.unit)[0]
+            if not (b.is_inst and b.op == "alloca"):
+                res = True
+        elif i.op == "call":
+            for ai, a in enumerate(i.ops):
+                if strip_casts(a) is not par:
+                    continue
+                if slot_call(i) == ("struct.thread_pool_t", "submit"):
+                    res = True
+                elif i.callee and depth < 3:
+                    h = prog.fn(i.callee, g.unit)
+                    if h is not None and not h.decl and may_keep(prog, h.build(), ai, depth + 1, memo):
+                        res = True
+    memo[key] = res
+    return res
+
+
+def rule_handover(chk, prog, seen):
+    """single-owner work blocks: after a block held in an object field was handed to a function that may keep it,
+    the field is overwritten on every path to the return (otherwise the block has two owners: double free)"""
+    BLK = "%struct.sqfs_block_t*"
+    memo = {}
+    n = 0
+    for f in prog.functions():
+        for c in f.calls():
+            if not c.callee:
+                continue
+            g = prog.fn(c.callee, f.unit)
+            if g is None or g.decl:
+                continue
+            for ai, a in enumerate(c.ops):
+                if a.is_const or getattr(a, "ty", "") != BLK:
+                    continue
+                v = strip_casts(a)
+                if not (v.is_inst and v.op == "load"):
+                    continue
+                p = strip_casts(v.ops[0])
+                if not (p.is_inst and p.op == "getelementptr" and p.field()):
+                    continue
+                base = resolve_ptr(prog, p, f.unit)[0]
+                if base.is_inst and base.op == "alloca":
+                    continue
+                if not may_keep(prog, g.build(), ai, memo=memo):
+                    continue
+                key = (f.unit.src, f.name, c.line, c.col)
+                if key in seen:
+                    continue
+                seen.add(key)
+                n += 1
+                chk.analysed(f)
+                fld = p.field()
+                inst = "%s:%s(%s)" % (f.name, g.name, fld[1])
+                # every path from the call to a return passes a store to the same field
+                resets = [i for i in f.insts() if i.op == "store" and strip_casts(i.ops[1]).is_inst and
+                          strip_casts(i.ops[1]).op == "getelementptr" and strip_casts(i.ops[1]).field() == fld]
+                rb = {}
+                for r_ in resets:
+                    rb.setdefault(r_.bb, []).append(r_.pos)
+                # the search starts at the load: taking the block out of the field before the call is as good
+                ok = any(pos > v.pos for pos in rb.get(v.bb, []))
+                bad = None
+                if not ok:
+                    seenb, stack = set(), list(v.bb.succs)
+                    while stack:
+                        b = stack.pop()
+                        if b in seenb:
+                            continue
+                        seenb.add(b)
+                        if b in rb:
+                            continue
+                        if b.term.op == "ret":
+                            bad = b.term
+                            break
+                        stack.extend(b.succs)
+                    ok = bad is None and bool(v.bb.succs)
+                if ok:
+                    chk.ok("K8-handover", inst, c, "the field is overwritten on every path after the block was handed over")
+                else:
+                    chk.violation("K8-handover", inst, bad or c,
+                                  "%s may keep the block, but a path returns with '%s' still pointing at it: the block has "
+                                  "two owners and is released twice" % (g.name, fld[1]))
+    return n
+
+
 def run(chk):
     chk.explanation = (
         "K5 error discipline and unconditional cleanup, decided on LLVM IR of the four tools' link closures: ERR = "
@@ -451,7 +546,7 @@ def run(chk):
         "sqfs_writer_finish, cleanup unlinks on failure; all four mains: exit status 0 unreachable from every failure "
         "edge; submit failures propagate.")
     chk.assumptions = ["that the handling of a consumed error is *right* is not decided, only that the error reaches a decision"]
-    seen1, seen2, seen3 = set(), set(), set()
+    seen1, seen2, seen3, seen4 = set(), set(), set(), set()
     n1 = n3 = 0
     for tool in TOOLS:
         prog = load_program(tool)
@@ -462,6 +557,11 @@ def run(chk):
         rule_cleanup(chk, prog, tool)
         if tool == "gensquashfs":
             rule_submit(chk, prog)
+        rule_handover(chk, prog, seen4)
+        if tool == "tar2sqfs":
+            from ..tarrules import t1_rule, t2_rule
+            t1_rule(chk, prog)
+            t2_rule(chk, prog)
     chk.note("distinct ERR call sites: %d, allocation sites: %d" % (n1, n3))
     chk.floor("E1", 450)
     chk.floor("E2", 250)
@@ -469,6 +569,9 @@ def run(chk):
     chk.floor("K1-cleanup", 6)
     chk.floor("K1-status", 4)
     chk.floor("E1-submit", 1)
+    chk.floor("K8-handover", 4)
+    chk.floor("T1-eof", 1)
+    chk.floor("T2-short", 5)
     controls(chk)
 
 
